@@ -568,6 +568,7 @@ def run_property(chk, prop, laws, quick_gen=300, thorough_gen=4000, scns=None, n
                     chk.dist("fanproto.unsupported.%s" % e)
             pending_runs.append({"probs": probs, "case": case, "hand": hand, "kind": kind, "fan": ab,
                                  "reqs": [{"t": q["t"], "queue": q["queue"], "payload": q["payload"]} for q in s.rpc_requests],
+                                 "oracle": pl.oracle() if pl is not None else None, "ea": ea,
                                  "hist": (list(getattr(mon, "final_history", []) or []), len(s.rpc_requests),
                                           [q["t"] for q in s.rpc_requests]) if want_hist else None,
                                  "notes": [n["detail"] for n in mon.notes] if want_notes else None,
@@ -603,6 +604,9 @@ def run_property(chk, prop, laws, quick_gen=300, thorough_gen=4000, scns=None, n
             a = next(manswers).split("\t")
             if a[0] == "ok":
                 mo = json.loads(a[1])
+                if pr["kind"] == "canonical" and pr.get("oracle") is not None:
+                    mo = __import__("props.c01", fromlist=["x"]).settled_model(
+                        chk, mo, pr["scn"].machine, pr["scn"].data, pr["ea"], pr["oracle"], pr["reqs"])
         probs = pr["probs"]
         if expect is not None:
             probs = probs + expect.post(pr["scn"], pr["fv"], pr["pre"], mo)
